@@ -91,6 +91,24 @@ def _chunk(seed, lo, hi, extra):
                 main.diff_trees(le, re_, diff_options=opts, formatter=fcls())
                 if ser(le) != sl or ser(re_) != sr:
                     fail(f"C06/diff-modified-input-tree/{fcls.__name__}")
+            # ... also when the two trees are elements inside larger documents, each followed by text and a sibling
+            if idx % 3 == 1:
+                from lxml import etree as _et3
+
+                hl, hr = _et3.Element("holder"), _et3.Element("holder")
+                for h_, t_ in ((hl, L), (hr, R)):
+                    h_.append(_et3.Element("before"))
+                    e_ = xt.to_lxml(t_)
+                    h_.append(e_)
+                    e_.tail = "text after the tree "
+                    h_.append(_et3.Element("after"))
+                shl, shr = ser(hl), ser(hr)
+                for fcls in (None, formatting.DiffFormatter, formatting.XmlDiffFormatter):
+                    fname = fcls.__name__ if fcls else "no-formatter"
+                    main.diff_trees(hl[1], hr[1], diff_options=opts, formatter=fcls() if fcls else None)
+                    if ser(hl) != shl or ser(hr) != shr:
+                        fail("C06/diff-modified-input-tree/elements-inside-larger-documents/" + fname)
+                        break
             # ... also when the caller hands in _ElementTree objects (copy.copy of a tree object shares its root)
             from lxml import etree as _et0
 
